@@ -3,11 +3,14 @@ import Synphot.Driver.Ops.C03
 import Synphot.Driver.Ops.C02
 import Synphot.Driver.Ops.C05
 import Synphot.Driver.Ops.C13
+import Synphot.Driver.Ops.Obs
 import Synphot.Driver.Ops.C20
 import Synphot.Driver.Ops.C12
 import Synphot.Driver.Ops.C17
 import Synphot.Driver.Ops.C16
 import Synphot.Driver.Ops.C14
+import Synphot.Driver.Ops.C15
+import Synphot.Driver.Ops.C11
 -- one import + one line in `dispatchers` per ops module
 open Lean Synphot
 
@@ -19,11 +22,14 @@ def dispatchers : List (String → Json → Option (M Json)) := [
   dispatchC02,
   dispatchC05,
   dispatchC13,
+  dispatchObs,
   dispatchC20,
   dispatchC12,
   dispatchC17,
   dispatchC16,
-  dispatchC14
+  dispatchC14,
+  dispatchC15,
+  dispatchC11
 ]
 
 def dispatch (op : String) (j : Json) : M Json :=
